@@ -106,8 +106,13 @@ Inductive op :=
 | Copy
 | Subspace (sel : list (option Z))
 | Squeeze (axes : option (list Z)) (inplace : bool)
-| Transpose (axes : option (list Z)) (constructs inplace : bool)
-| InsertDimension (axis : option key) (pos : Z) (constructs inplace : bool)
+| Transpose (axes : option (list Z)) (constructs inplace : bool) (done : list key)
+| InsertDimension (axis : option key) (pos : Z) (constructs inplace : bool) (done : list key)
+    (* [done]: only read when constructs=True and the loop over the metadata
+       constructs raises part-way: the keys of the constructs that the loop had
+       already dealt with.  The loop runs over a python set of type names, so
+       the order is not a function of the abstract state; every choice of
+       [done] is a possible behaviour and the theorems hold for all of them *)
 | Convert (k : key) (full : bool).
 
 (* outcome of a call *)
@@ -234,7 +239,10 @@ Definition psize (p : payload) : option Z := match p with PAxis n => Some n | _ 
 
 Definition set_construct (v : via) (t : ctype) (p : payload) (k : option key)
            (axes : option (list key)) (s : cstate) : cstate * outcome :=
-  if negb (kind_ok t p) || negb (copyable_entry (t, EmptyString, p)) then (s, OutOfModel) else
+  if negb (kind_ok t p) then (s, OutOfModel) else
+  (* a dimension coordinate with data of another rank cannot be created:
+     DimensionCoordinate.set_data raises before the container is reached *)
+  if negb (copyable_entry (t, EmptyString, p)) then (s, Rejected ValueErr) else
   (* _check_construct_type *)
   if is_view v && ignored t then (s, Rejected ValueErr) else
   match (match k with Some k => Some k | None => new_identifier s t end) with
@@ -514,6 +522,8 @@ Definition transpose_entry (nda : list key) (cax : list (key * list key)) (e : c
             let nca := new_construct_axes nda ca in
             match mapM (fun a => index_of a ca 0) nca with
             | Some perm =>
+                (* Data._parse_axes / transpose: duplicate axis, wrong count *)
+                if negb (nodupb perm && Nat.eqb (length perm) (length sh)) then None else
                 match permute sh perm with
                 | Some sh' => Some ((t, k, PArr (Some sh') true bnd), Some (k, nca))
                 | None => None
@@ -532,8 +542,29 @@ Fixpoint apply_updates (ups : list (option (key * list key))) (cax : list (key *
   | None :: r => apply_updates r cax
   end.
 
-Definition transpose (axes : option (list Z)) (constructs inplace : bool) (s : cstate)
-  : cstate * outcome :=
+(* "for key, construct in f.constructs.filter_by_data(todict=True).items(): ..."
+   [f e = None]: the body raises for construct e.  When no body raises every
+   construct is dealt with; otherwise the ones in [done] that do not raise
+   have been dealt with when the exception leaves the loop (second component
+   false). *)
+Definition entry_fn := centry -> option (centry * option (key * list key)).
+
+Definition partial_entry (f : entry_fn) (done : list key) (e : centry)
+  : centry * option (key * list key) :=
+  if memb (snd (fst e)) done
+  then match f e with Some r => r | None => (e, None) end
+  else (e, None).
+
+Definition loop_constructs (f : entry_fn) (done : list key) (c : list centry)
+           (cax : list (key * list key)) : list centry * list (key * list key) * bool :=
+  match mapM f c with
+  | Some res => (map fst res, apply_updates (map snd res) cax, true)
+  | None => let res := map (partial_entry f done) c in
+            (map fst res, apply_updates (map snd res) cax, false)
+  end.
+
+Definition transpose (axes : option (list Z)) (constructs inplace : bool) (done : list key)
+           (s : cstate) : cstate * outcome :=
   if negb inplace && negb (copyable s) then (s, Rejected ValueErr) else
   match fshape s with
   | None => (s, Rejected ValueErr)
@@ -554,14 +585,22 @@ Definition transpose (axes : option (list Z)) (constructs inplace : bool) (s : c
           | Some sh' =>
               match faxes s with
               | None =>
-                  (* constructs=True without field data axes: NameError (or an
-                     earlier ValueError) at the first construct with 2-d data,
-                     otherwise nothing more happens *)
-                  if constructs && existsb (fun e => match e with
-                                                     | (t, _, PArr (Some shc) true _) =>
-                                                         is_array t && (2 <=? length shc)%nat
-                                                     | _ => false end) (cons s)
-                  then (s, OutOfModel)
+                  (* constructs=True without field data axes: the first construct
+                     with 2-d data ends the loop - ValueError from get_data_axes(key)
+                     when it has no axes, NameError (new_data_axes was never bound)
+                     when it has; the data have been transposed by then *)
+                  let twod := filter (fun e => match e with
+                                               | (t, _, PArr (Some shc) true _) =>
+                                                   is_array t && (2 <=? length shc)%nat
+                                               | _ => false end) (cons s) in
+                  let has_axes (e : centry) := match assoc (snd (fst e)) (caxes s) with
+                                               | Some _ => true | None => false end in
+                  if constructs && negb (Nat.eqb (length twod) 0)
+                  then
+                    let back := if inplace then with_field s (Some sh') None else s in
+                    if forallb has_axes twod then (back, Rejected OtherErr)
+                    else if forallb (fun e => negb (has_axes e)) twod then (back, Rejected ValueErr)
+                    else (s, OutOfModel)
                   else (with_field s (Some sh') None, Done)
               | Some ax =>
                   match permute ax ia with
@@ -570,14 +609,12 @@ Definition transpose (axes : option (list Z)) (constructs inplace : bool) (s : c
                       if negb (check_field_axes (cons s) (Some sh') ax')
                       then ((if inplace then with_field s (Some sh') (Some ax) else s), Rejected ValueErr)
                       else if negb constructs then (with_field s (Some sh') (Some ax'), Done)
-                      else if negb (dup_free s) then (s, OutOfModel)
                       else
-                        match mapM (transpose_entry ax' (caxes s)) (cons s) with
-                        | None => (s, OutOfModel)
-                        | Some res =>
-                            let c' := map fst res in
-                            let cax' := apply_updates (map snd res) (caxes s) in
-                            (mkS c' (ctys s) cax' (Some sh') (Some ax'), Done)
+                        match loop_constructs (transpose_entry ax' (caxes s)) done (cons s) (caxes s) with
+                        | (c', cax', true) => (mkS c' (ctys s) cax' (Some sh') (Some ax'), Done)
+                        | (c', cax', false) =>
+                            ((if inplace then mkS c' (ctys s) cax' (Some sh') (Some ax') else s),
+                             Rejected ValueErr)
                         end
                   end
               end
@@ -614,8 +651,8 @@ Definition norm_pos (pos n : Z) : option Z :=
   if (- n - 1 <=? pos) && (pos <? 0) then Some (pos + n + 1)
   else if (0 <=? pos) && (pos <=? n) then Some pos else None.
 
-Definition insert_dimension (axis : option key) (pos : Z) (constructs inplace : bool) (s : cstate)
-  : cstate * outcome :=
+Definition insert_dimension (axis : option key) (pos : Z) (constructs inplace : bool)
+           (done : list key) (s : cstate) : cstate * outcome :=
   if negb inplace && negb (copyable s) then (s, Rejected ValueErr) else
   (* the axis: a new size-1 domain axis, or an existing one of size 1 *)
   let r := match axis with
@@ -659,13 +696,12 @@ Definition insert_dimension (axis : option key) (pos : Z) (constructs inplace : 
               if negb okaxes
               then ((if inplace then with_field s1 sh' (faxes s1) else s), Rejected ValueErr)
               else if negb constructs then (with_field s1 sh' ax', Done)
-              else if negb (dup_free s1) then (s, OutOfModel)
               else
                 let cpos := match ax' with Some _ => pos1 | None => 0 end in
-                match mapM (insert_entry a cpos ax0 (caxes s1)) (cons s1) with
-                | None => (s, OutOfModel)
-                | Some res =>
-                    (mkS (map fst res) (ctys s1) (apply_updates (map snd res) (caxes s1)) sh' ax', Done)
+                match loop_constructs (insert_entry a cpos ax0 (caxes s1)) done (cons s1) (caxes s1) with
+                | (c', cax', true) => (mkS c' (ctys s1) cax' sh' ax', Done)
+                | (c', cax', false) =>
+                    ((if inplace then mkS c' (ctys s1) cax' sh' ax' else s), Rejected ValueErr)
                 end
           end
       end
@@ -726,11 +762,15 @@ Definition subspace (sel : list (option Z)) (s : cstate) : cstate * outcome :=
           | None => (s, Rejected IndexErr)
           | Some newsz =>
               if existsb (Z.eqb 0) newsz then (s, Rejected IndexErr) else
-              if negb (Nat.eqb (length fax) (length sh)) || negb (dup_free s) then (s, OutOfModel) else
+              if negb (Nat.eqb (length fax) (length sh)) then (s, OutOfModel) else
               match axes_sizes (cons s) fax with
               | None => (s, Rejected KeyErr)
               | Some _ =>
                   let c1 := resize_axes (cons s) (zip fax newsz) in
+                  (* an axis that occurs twice in the data axes and is given two
+                     sizes: the second set_construct(domain_axis) is a resize of a
+                     spanned axis *)
+                  if negb (check_field_axes c1 (Some newsz) fax) then (s, Rejected ValueErr) else
                   match mapM (sub_entry fax newsz (caxes s)) c1 with
                   | None => (s, Rejected OtherErr)
                   | Some c2 =>
@@ -756,6 +796,59 @@ Fixpoint dedup_entries (l : list centry) : list centry :=
               then dedup_entries r else e :: dedup_entries r
   end.
 
+(* "for ccid in ...domain_ancillaries().values(): axes = constructs_data_axes[ccid];
+    if not subset: ok = False; break" - scanned in order.  None: KeyError on a
+   term that is None or names a construct without data axes *)
+Definition anc_scan (cax : list (key * list key)) (dax : list key)
+           (ancs : list (string * option key)) : option bool :=
+  fold_left (fun (st : option bool) ta =>
+               match st with
+               | Some true =>
+                   match snd ta with
+                   | Some a => match assoc a cax with
+                               | Some aax => Some (subset aax dax)
+                               | None => None end
+                   | None => None end
+               | other => other end) ancs (Some true).
+
+(* what one coordinate reference contributes to the new field: itself with
+   the coordinates that lie inside the new domain, and its domain
+   ancillaries.  None: constructs_data_axes[ccid] raises KeyError *)
+Definition conv_ref (s : cstate) (dax : list key) (e : centry) : option (list centry) :=
+  match e with
+  | (CoordRef, rk, PRef cs ancs) =>
+      match mapM (fun c => assoc c (caxes s)) cs with
+      | None => None
+      | Some caxs =>
+          let newc := map fst (filter (fun ca => subset (snd ca) dax) (zip cs caxs)) in
+          match newc with
+          | [] => Some []
+          | _ =>
+              match anc_scan (caxes s) dax ancs with
+              | None => None
+              | Some false => Some []
+              | Some true =>
+                  Some ((CoordRef, rk, PRef newc ancs) ::
+                        flat_map (fun ta => match snd ta with
+                                            | Some a => match cget DomainAnc a (cons s) with
+                                                        | Some pa => [(DomainAnc, a, pa)]
+                                                        | None => [] end
+                                            | None => [] end) ancs)
+              end
+          end
+      end
+  | _ => Some []
+  end.
+
+(* dimension / auxiliary coordinates and cell measures inside the axes *)
+Definition conv_keep (s : cstate) (dax : list key) (e : centry) : bool :=
+  (match fst (fst e) with DimCoord | AuxCoord | CellMeasure => true | _ => false end)
+  && match assoc (snd (fst e)) (caxes s) with
+     | Some a => subset a dax | None => false end.
+
+Definition ref_coords (e : centry) : list key :=
+  match e with (CoordRef, _, PRef cs _) => cs | _ => [] end.
+
 Definition convert (k : key) (full : bool) (s : cstate) : cstate * outcome :=
   match assoc k (ctys s) with
   | None => (s, Rejected ValueErr)
@@ -766,13 +859,28 @@ Definition convert (k : key) (full : bool) (s : cstate) : cstate * outcome :=
       | Some p =>
           if negb (copyable_entry (t, k, p)) then (s, Rejected ValueErr) else
           match phasdata p, pshape p with
+          | false, _ => (s, Rejected ValueErr)          (* c.del_data() *)
+          | true, None => (s, OutOfModel)               (* no such construct *)
           | true, Some sh =>
               match assoc k (caxes s) with
               | None =>
-                  (* no data axes: a field with properties only; with
-                     full_domain the subset tests raise TypeError as soon as
-                     another construct has axes *)
-                  if full then (s, OutOfModel) else (mkS [] [] [] None None, Done)
+                  (* no data axes: a field with properties only (the data are
+                     not set either).  With full_domain every subset test
+                     against data_axes=None raises TypeError, every look-up
+                     of the axes of a coordinate that has none KeyError *)
+                  if negb full then (mkS [] [] [] None None, Done) else
+                  let has_axes (c : key) := match assoc c (caxes s) with
+                                            | Some _ => true | None => false end in
+                  if existsb (fun e => (match fst (fst e) with
+                                        | DimCoord | AuxCoord | CellMeasure => true | _ => false end)
+                                       && has_axes (snd (fst e))) (cons s)
+                  then (s, Rejected TypeErr)
+                  else
+                    let named := flat_map ref_coords (cons s) in
+                    if Nat.eqb (length named) 0 then (mkS [] [] [] None None, Done)
+                    else if forallb (fun c => negb (has_axes c)) named then (s, Rejected KeyErr)
+                    else if forallb has_axes named then (s, Rejected TypeErr)
+                    else (s, OutOfModel)      (* depends on the order of a python set *)
               | Some dax =>
                   match axes_sizes (cons s) dax with
                   | None => (s, Rejected KeyErr)
@@ -781,68 +889,27 @@ Definition convert (k : key) (full : bool) (s : cstate) : cstate * outcome :=
                       let axes_c := map (fun a => (DomainAxis, a, PAxis (match axis_size (cons s) a with
                                                                            | Some n => n | None => 0 end)))
                                         (nodup string_dec dax) in
-                      let axes_t := map (fun a => (a, DomainAxis)) (nodup string_dec dax) in
-                      if negb full then (mkS axes_c axes_t [] (Some sh) (Some dax), Done)
+                      if negb full
+                      then (mkS axes_c (map (fun e => (snd (fst e), fst (fst e))) axes_c) []
+                                (Some sh) (Some dax), Done)
                       else
-                        (* dimension/auxiliary coordinates and cell measures inside the axes *)
-                        let keep e := match e with
-                                      | (t', k', _) =>
-                                          (match t' with DimCoord | AuxCoord | CellMeasure => true | _ => false end)
-                                          && match assoc k' (caxes s) with
-                                             | Some a => subset a dax | None => false end
-                                      end in
-                        let kept := filter keep (cons s) in
+                        let kept := filter (conv_keep s dax) (cons s) in
                         if negb (forallb copyable_entry kept) then (s, Rejected ValueErr) else
-                        (* coordinate references *)
-                        let ref_step (acc : option (list centry * list centry)) (e : centry) :=
-                            match acc, e with
-                            | Some (refs, das), (CoordRef, rk, PRef cs ancs) =>
-                                match mapM (fun c => assoc c (caxes s)) cs with
-                                | None => None                      (* constructs_data_axes[ccid] KeyError *)
-                                | Some caxs =>
-                                    let newc := map fst (filter (fun ca => subset (snd ca) dax) (zip cs caxs)) in
-                                    match newc with
-                                    | [] => Some (refs, das)
-                                    | _ =>
-                                        (* "for ccid in ...values(): axes = constructs_data_axes[ccid];
-                                            if not subset: ok = False; break" - scanned in order *)
-                                        match fold_left (fun (st : option bool) ta =>
-                                                 match st with
-                                                 | Some true =>
-                                                     match snd ta with
-                                                     | Some a => match assoc a (caxes s) with
-                                                                 | Some aax => Some (subset aax dax)
-                                                                 | None => None end
-                                                     | None => None end
-                                                 | other => other end) ancs (Some true) with
-                                        | None => None              (* KeyError on a missing / None term *)
-                                        | Some okb =>
-                                            if okb then
-                                              Some ((refs ++ [(CoordRef, rk, PRef newc ancs)])%list,
-                                                    (das ++ flat_map (fun ta => match snd ta with
-                                                                 | Some a => match cget DomainAnc a (cons s) with
-                                                                             | Some pa => [(DomainAnc, a, pa)]
-                                                                             | None => [] end
-                                                                 | None => [] end) ancs)%list)
-                                            else Some (refs, das)
-                                        end
-                                    end
-                                end
-                            | _, _ => acc
-                            end in
-                        match fold_left ref_step (cons s) (Some ([], [])) with
+                        match mapM (conv_ref s dax) (cons s) with
                         | None => (s, Rejected KeyErr)
-                        | Some (refs, das0) =>
-                            let das := dedup_entries das0 in
-                            let allc := (axes_c ++ kept ++ refs ++ das)%list in
-                            let keys := map (fun e => snd (fst e)) (kept ++ das)%list in
+                        | Some contrib =>
+                            (* setting the same construct under the same key twice leaves one *)
+                            let rd := dedup_entries (concat contrib) in
+                            let allc := (axes_c ++ kept ++ rd)%list in
+                            let with_axes (e : centry) :=
+                                match fst (fst e) with CoordRef | DomainAxis => false | _ => true end in
+                            let keys := map (fun e => snd (fst e)) (filter with_axes allc) in
                             (mkS allc (map (fun e => (snd (fst e), fst (fst e))) allc)
                                  (filter (fun ka => memb (fst ka) keys) (caxes s))
                                  (Some sh) (Some dax), Done)
                         end
                   end
               end
-          | _, _ => (s, OutOfModel)
           end
       end
   end.
@@ -861,8 +928,8 @@ Definition step (s : cstate) (o : op) : cstate * outcome :=
   | Copy => if copyable s then (s, Done) else (s, Rejected ValueErr)
   | Subspace sel => subspace sel s
   | Squeeze a i => squeeze a i s
-  | Transpose a c i => transpose a c i s
-  | InsertDimension a p c i => insert_dimension a p c i s
+  | Transpose a c i d => transpose a c i d s
+  | InsertDimension a p c i d => insert_dimension a p c i d s
   | Convert k full => convert k full s
   end.
 
